@@ -73,6 +73,7 @@ func genSched(r *Rng, phase string) []*Scenario {
 		}
 		s.Tasks = append(s.Tasks, t)
 	}
+	s.Arena = r.Chance(0.35)
 	env, ok := buildTaskEnv(s)
 	if !ok {
 		return nil
